@@ -605,4 +605,114 @@ theorem explore_complete {c : Ctx} (D : Dom c) {db0 : List Nat} {init : PEntry} 
           simp only [pe, key, h8]
           exact h7
 
+/-- a Kekulé form of the component dict `rings` -/
+structure ValidFormR (rings : Adj) (db0 : List Nat) (f : Nat × Nat → Nat) : Prop where
+  ord : ∀ v w, w ∈ nbr rings v → f (ukey v w) = 1 ∨ f (ukey v w) = 2
+  deg : ∀ v, nbr rings v ≠ [] →
+    (nbr rings v).countP (fun w => f (ukey v w) == 2) = if db0.contains v = true then 0 else 1
+
+/-- **completeness of the search** (prepared components without ambiguous atoms): if the search ran to its end
+    (no exception, fewer complete paths than the limit), every Kekulé form of the component is among the paths found -/
+theorem searchRaw_complete {rings : Adj} (G : GraphOK rings) (hk : ∀ p ∈ rings, 2 ≤ p.2.length) (db0 : List Nat)
+    (limit : Nat) (hcrash : (searchRaw rings db0 [] limit).crash = none)
+    (hlim : (searchRaw rings db0 [] limit).found.length < limit) {f : Nat × Nat → Nat}
+    (VF : ValidFormR rings db0 f) : ∃ y ∈ (searchRaw rings db0 [] limit).found, Agr f y := by
+  have hgood : Good f (searchRaw rings db0 [] limit) limit := by
+    unfold searchRaw at hcrash ⊢
+    split at hcrash
+    · simp at hcrash
+    · rename_i c levels hinit
+      have IO := initial_ok G hinit
+      have Gc : GraphOK c.rings := IO.hr ▸ G
+      have hnbeq : ∀ v, nb c v = nbr rings v := fun v => by simp [nb, nbr, IO.hr]
+      have VFc : ValidForm c db0 f := ⟨fun v w hw => VF.ord v w (hnbeq v ▸ hw),
+        fun v hv => by rw [hnbeq v]; exact VF.deg v (hnbeq v ▸ hv)⟩
+      obtain ⟨ms, hms⟩ := IO.skey
+      have hnbs : nb c c.start = ms := by rw [hnbeq]; exact nbr_of_mem G hms
+      have hms2 := hk _ hms
+      have hne : nb c c.start ≠ [] := by
+        rw [hnbs]; intro h0; rw [h0] at hms2; simp at hms2
+      have hstart : nbr c.rings c.start ≠ [] := hne
+      have D := dom_of Gc IO.pyr hstart
+      -- pick the initial level that agrees with the form
+      have pick : ∃ e0, [e0] ∈ levels ∧ e0.bond = f (ukey e0.atom c.start) := by
+        have hdeg := VFc.deg c.start hne
+        cases hdb : db0.contains c.start
+        · rw [hdb] at hdeg
+          simp only [Bool.false_eq_true, if_false] at hdeg
+          have hpos : 0 < (nb c c.start).countP (fun w => f (ukey c.start w) == 2) := by omega
+          obtain ⟨x, hx, hfx⟩ := List.countP_pos_iff.1 hpos
+          simp only [beq_iff_eq] at hfx
+          obtain ⟨ex, hex, hexa⟩ := IO.all hdb x hx
+          obtain ⟨e0, he0, SO, hf, hb, hdbb⟩ := IO.lv _ hex
+          simp only [List.cons.injEq, and_true] at he0
+          subst he0
+          rcases SO.cases with ⟨-, -, h3⟩ | ⟨h1, h2, -, h4⟩ | ⟨-, h2, -⟩
+          · rw [hdb] at h3; exact Bool.noConfusion h3
+          · -- first bonds single: take the level of the other neighbour
+            have hndn := D.nodup c.start
+            obtain ⟨y, hy, hyx⟩ : ∃ y ∈ nb c c.start, y ≠ x := by
+              match hnb : nb c c.start, h4, hndn, hx with
+              | [u, v], _, hnn, hx =>
+                simp only [List.nodup_cons, List.mem_cons, List.not_mem_nil, or_false, not_false_eq_true,
+                  List.nodup_nil, and_true] at hnn
+                simp only [List.mem_cons, List.not_mem_nil, or_false] at hx
+                rcases hx with rfl | rfl
+                · exact ⟨v, by simp, fun h => hnn h.symm⟩
+                · exact ⟨u, by simp, hnn⟩
+            have hfy : f (ukey c.start y) = 1 := by
+              rcases VFc.ord c.start y hy with h | h
+              · exact h
+              · exfalso
+                have := countP_ge_two (P := fun w => f (ukey c.start w) == 2) hx hy (fun h => hyx h.symm)
+                  (by simp [hfx]) (by simp [h])
+                omega
+            obtain ⟨ey, hey, heya⟩ := IO.all hdb y hy
+            obtain ⟨e1, he1, SO1, -, -, -⟩ := IO.lv _ hey
+            simp only [List.cons.injEq, and_true] at he1
+            subst he1
+            refine ⟨ey, hey, ?_⟩
+            rcases SO1.cases with ⟨-, -, g3⟩ | ⟨-, g2, -, -⟩ | ⟨g1, -, -⟩
+            · rw [hdb] at g3; exact Bool.noConfusion g3
+            · have : ey.bond = 1 := g2
+              rw [this, heya, ukey_comm, hfy]
+            · omega
+          · refine ⟨ex, hex, ?_⟩
+            have : ex.bond = 2 := h2
+            rw [this, hexa, ukey_comm, hfx]
+        · rw [hdb, if_pos rfl, List.countP_eq_zero] at hdeg
+          obtain ⟨e0, he0⟩ := IO.one hdb
+          obtain ⟨e1, he1, SO, hf, -, -⟩ := IO.lv _ he0
+          simp only [List.cons.injEq, and_true] at he1
+          subst he1
+          refine ⟨e0, he0, ?_⟩
+          have h1 := hdeg e0.atom hf
+          rcases SO.cases with ⟨-, h2, -⟩ | ⟨-, -, h3, -⟩ | ⟨-, -, h3⟩
+          · have : e0.bond = 1 := h2
+            rw [this, ukey_comm]
+            rcases VFc.ord c.start e0.atom hf with h | h
+            · exact h.symm
+            · simp [h] at h1
+          · rw [hdb] at h3; exact Bool.noConfusion h3
+          · rw [hdb] at h3; exact Bool.noConfusion h3
+      obtain ⟨e0, he0, hbond⟩ := pick
+      obtain ⟨e1, he1, SO, hf, hb, hdbb⟩ := IO.lv _ he0
+      simp only [List.cons.injEq, and_true] at he1
+      subst he1
+      apply seqBranches_good f _ levels limit [e0] he0
+      intro lim
+      apply explore_complete D SO VFc [e0] [] lim (inv_init D SO.prev hf hb hdbb)
+      · intro e he; simp at he
+      · intro x hx
+        simp only [M, List.nil_append, List.map_cons, List.map_nil, List.mem_singleton] at hx
+        subst hx
+        simp only [pe, key]
+        have : e0.prev = c.start := SO.prev
+        rw [this]
+        exact hbond
+  rcases hgood with h | h | h
+  · rw [hcrash] at h; simp at h
+  · omega
+  · exact h
+
 end ChythonModel.Proofs.C05S
